@@ -25,8 +25,8 @@ ASSUMPTIONS = ['cooperative scheduling only; virtual integer time']
 class _NeverJson:
     @staticmethod
     def loads(s, **kw):
-        if s[:6] == '{"sid"':
-            return eio_json.loads(s, **kw)          # the OPEN packet of the scripted server
+        if s[:12] == '{"sid":"sid-':
+            return eio_json.loads(s, **kw)          # the OPEN packet of the scripted server (longer than any symbolic text here)
         raise ValueError('not json')
     dumps = staticmethod(eio_json.dumps)
 
